@@ -184,7 +184,11 @@ func HandleBulkBody(postBody []byte, ctx *fasthttp.RequestCtx, rid uint64, myid 
 			numBytes := len(line)
 			bytesReceived += numBytes
 			// update only if body is less than MAX_RECORD_SIZE
-			if numBytes < sutils.MAX_RECORD_SIZE {
+			if !vtable.IsValidIndexName(indexName) {
+				// the index name becomes a directory name: refuse this item
+				log.Errorf("HandleBulkBody: invalid index name in action line")
+				success = false
+			} else if numBytes < sutils.MAX_RECORD_SIZE {
 				processedCount++
 				success = true
 				if strings.Contains(indexName, ".kibana") {
@@ -368,6 +372,11 @@ func ProcessIndexRequestPle(tsNow uint64, indexNameIn string, flush bool,
 	idxToStreamIdCache map[string]string, cnameCacheByteHashToStr map[uint64]string,
 	jsParsingStackbuf []byte, pleArray []*writer.ParsedLogEvent,
 ) error {
+	// the index name becomes a directory name below the data directory
+	if !vtable.IsValidIndexName(indexNameIn) {
+		return utils.TeeErrorf("ProcessIndexRequestPle: invalid index name")
+	}
+
 	for _, ple := range pleArray {
 		if ple.GetIndexName() != indexNameIn {
 			return utils.TeeErrorf("ProcessIndexRequestPle: indexName mismatch; want %v, got %v",
